@@ -191,6 +191,9 @@ func runScenarioMode(t *testing.T, mode string, rep *Report, rng *rand.Rand, n i
 			if p := os.Getenv("NLE_OUT"); p != "" {
 				os.WriteFile(p+"/current-scenario.json", []byte(sc.JSON()), 0o644)
 			}
+			if p := os.Getenv("NLE_SAVE_SCEN"); p != "" {
+				os.WriteFile(p+"/"+strings.ReplaceAll(sc.Name, "#", "-")+".json", []byte(sc.JSON()), 0o644)
+			}
 			res := runScenario(t, sc)
 			outs = append(outs, scenOut{sc, res})
 			rep.Cases++
